@@ -9,7 +9,8 @@ REPO = os.environ.get("VERIF_REPO", "/repo")
 LEAN = os.path.join(VERIF, "lean")
 HARNESS = os.path.join(VERIF, "harness")
 BUILD = os.path.join(VERIF, ".build")
-BIN = os.path.join(BUILD, "bin")
+ALT = REPO != "/repo"            # mutation dry-runs: VERIF_REPO=/var/tmp/<copy> ./check Cxx quick
+BIN = os.path.join(BUILD, "bin" if not ALT else "bin-" + hashlib.sha1(REPO.encode()).hexdigest()[:10])
 SCRATCH = os.path.join(BUILD, "scratch")
 REPLAYS = os.path.join(VERIF, "replays")
 ALLOWED_AXIOMS = {"propext", "Classical.choice", "Quot.sound"}
@@ -64,6 +65,20 @@ def sh(cmd, cwd=None, env=None, timeout=None, stdin=None, stdout=subprocess.PIPE
 
 # ---------------------------------------------------------------- facts (tie B)
 
+def modfile_args():
+    """With VERIF_REPO set to a scratch copy, build the harness against it through an alternative go.mod."""
+    if not ALT:
+        return []
+    d = BIN + "-mod"
+    os.makedirs(d, exist_ok=True)
+    mod = open(os.path.join(HARNESS, "go.mod")).read().replace("=> /repo", "=> " + REPO)
+    mp = os.path.join(d, "go.mod")
+    if not os.path.exists(mp) or open(mp).read() != mod:
+        open(mp, "w").write(mod)
+    shutil.copy(os.path.join(REPO, "go.sum"), os.path.join(d, "go.sum"))
+    return ["-modfile=" + mp]
+
+
 def sync_gosum():
     src, dst = os.path.join(REPO, "go.sum"), os.path.join(HARNESS, "go.sum")
     try:
@@ -82,7 +97,7 @@ def extract_facts(names):
     for n in names:
         gen = os.path.join(LEAN, "PlzVerif", "Generated", n.upper() if re.fullmatch(r"c\d+", n) else n)
         with Lock("go"):
-            rc, out = sh(["go", "run", "./extract/" + n.lower()], cwd=HARNESS, env=goenv(), timeout=600)
+            rc, out = sh(["go", "run"] + modfile_args() + ["./extract/" + n.lower()], cwd=HARNESS, env=goenv(), timeout=600)
         if rc != 0:
             status = "unreadable"
             detail.append(f"{n}: rc={rc} {out.strip()[-400:]}")
@@ -219,7 +234,7 @@ def build_harness(name):
     sync_gosum()
     out = os.path.join(BIN, name)
     with Lock("go"):
-        rc, o = sh(["go", "build", "-tags", "verif", "-o", out, "./cmd/" + name], cwd=HARNESS, env=goenv(), timeout=1800)
+        rc, o = sh(["go", "build"] + modfile_args() + ["-tags", "verif", "-o", out, "./cmd/" + name], cwd=HARNESS, env=goenv(), timeout=1800)
     return rc, o, out
 
 
@@ -316,9 +331,17 @@ def correspond(spec, seed, tier, outdir, replay=None, extra_args=None):
 
 def load_findings(pid):
     p = os.path.join(VERIF, "known_findings.json")
-    if not os.path.exists(p):
-        return []
-    return [f for f in json.load(open(p)).get("findings", []) if f.get("property") == pid]
+    out = []
+    if os.path.exists(p):
+        out = [f for f in json.load(open(p)).get("findings", []) if f.get("property") == pid]
+    extra = os.environ.get("VERIF_EXTRA_FINDINGS")      # development only: not-yet-merged inbox entries
+    if extra and os.path.exists(extra):
+        for l in open(extra):
+            if l.strip():
+                f = json.loads(l)
+                if f.get("property") == pid:
+                    out.append(f)
+    return out
 
 
 # ---------------------------------------------------------------- evidence
